@@ -90,6 +90,17 @@ fn engine_fine(terms: &[Term], checks: u32, tier: Tier, kernels: &[&str]) -> Vec
                         out.push(item(c3, Plan::pb(2), checks));
                     }
                 }
+                // four workers, each holding a chunk (and a match), six delays from round robin: deep enough for a
+                // worker to be overtaken twice between two consecutive operations on shared state (synchronisation
+                // primitives of the library's own code are scheduling points, tools/rewrite_repo.py)
+                if cs == CsSet::N(2) {
+                    for (src, known) in [(Src::SVec, true), (Src::SIter, false)] {
+                        let mut c4 = par(case(src, 8, ch, *t), 4, cs);
+                        c4.known = known;
+                        c4.pmask = 0xFF;
+                        out.push(item(c4, Plan::db(if th { 7 } else { 6 }), checks));
+                    }
+                }
                 // closure granularity on a wrapped Vec
                 for pm in [0b0110u64, 0b1000, 0b0101] {
                     if !t.uses_pred() && pm != 0b0110 {
@@ -547,8 +558,18 @@ pub fn items(prop: &str, tier: Tier) -> Vec<Item> {
                                 out.push(item(c, if th { Plan::full() } else { Plan::pb(2) }, CK_RESULT));
                             }
                         }
+                        // four workers, every one of them holding a match
+                        if cs == CsSet::N(2) || th {
+                            for pm in [0xFFu64, 0b0101_0101] {
+                                let mut c = par(case(src, 8, ch, Term::Find), 4, cs);
+                                c.known = known;
+                                c.pmask = pm;
+                                out.push(item(c.clone(), Plan::pb(2), CK_RESULT));
+                                out.push(item(c, Plan::db(2), CK_RESULT));
+                            }
+                        }
                         // three workers: matches in different chunks
-                        for pm in [1u64 << 5, (1 << 2) | (1 << 5), 1 | (1 << 3), (1 << 4) | (1 << 1), 0] {
+                        for pm in [1u64 << 5, (1 << 2) | (1 << 5), 1 | (1 << 3), (1 << 4) | (1 << 1), 0b010101, 0b111111, 0] {
                             let mut c = par(case(src, 6, ch, Term::Find), 3, cs);
                             c.known = known;
                             c.pmask = pm;
